@@ -59,7 +59,7 @@ MODELS = {
     '@_ZSt9terminatev': dict(c='vp_terminate', kind='pure'),
     '@abort': dict(c='vp_terminate', kind='pure'),
     '@__cxa_pure_virtual': dict(c='vp_terminate', kind='pure'),
-    '@__cxa_guard_acquire': dict(c='vp_cxa_guard_acquire', kind='vis'),
+    '@__cxa_guard_acquire': dict(c='vp_cxa_guard_acquire', kind='block', en='vp_guard_can_enter', bk='VP_B_GUARD'),
     '@__cxa_guard_release': dict(c='vp_cxa_guard_release', kind='vis', wr=True),
     '@__cxa_guard_abort': dict(c='vp_cxa_guard_release', kind='vis', wr=True),
     '@__cxa_atexit': dict(c='vp_cxa_atexit', kind='pure'),
@@ -68,7 +68,7 @@ MODELS = {
     '@_ZNSt15__exception_ptr13exception_ptr9_M_addrefEv': dict(c='vp_eptr_addref', kind='pure'),
     '@_ZNSt15__exception_ptr13exception_ptr10_M_releaseEv': dict(c='vp_eptr_release', kind='pure'),
     '@memcmp': dict(c='vp_memcmp', kind='mem'), '@strlen': dict(c='vp_strlen', kind='mem'),
-    '@memchr': dict(c='vp_memchr', kind='mem'),
+    '@memchr': dict(c='vp_memchr', kind='mem'), '@strcmp': dict(c='vp_strcmp', kind='mem'),
     '@bcmp': dict(c='vp_memcmp', kind='mem'),
     # harness API (vp.h)
     '@vp_assert': dict(kind='assert'), '@vp_assume': dict(kind='assume'),
@@ -476,6 +476,8 @@ class FuncEmitter:
         if o == 'bin':
             op, x, y = a
             ty = i.ty
+            if op == 'sub' and all(v[0] == 'reg' and v[1] in s.pl for v in (x, y)):
+                s.S(f"{D} = (uint64_t)(({env[x[1]]}) - ({env[y[1]]}));"); return
             A = G.val(ty, x, env); B = G.val(ty, y, env)
             ct = G.ctype(ty)
             if op in ('add', 'sub', 'mul', 'and', 'or', 'xor', 'udiv', 'urem'):
@@ -635,7 +637,9 @@ class FuncEmitter:
                 else:
                     s.T(f"return {G.val(i.ty, a[0], env)};")
         elif o == 'unreachable':
-            s.T("__CPROVER_assume(0);" if not s.thread else f"__CPROVER_assume(0);")
+            # clang turns undefined behaviour it can prove (store through a null pointer, ...) into 'unreachable' and prunes the
+            # path; reaching one is therefore reported, not assumed away (noreturn models assume(0) before control gets here)
+            s.T('VP_CHECK(0, "IR unreachable reached: undefined behaviour in the source (e.g. access through a null pointer that the optimiser removed)"); __CPROVER_assume(0);')
         elif o == 'reraise':
             s.S("vp_exc.pending = 1;")
         elif o == 'landingpad':
@@ -671,12 +675,23 @@ class FuncEmitter:
             return G.val(args[k][0], args[k][1], env, want_ptr=want_ptr or isinstance(M.resolve(args[k][0]), PtrT))
         asg = (f"{D} = " if (D and not rvoid) else "")
         if callee[0] == 'reg':
-            # indirect call: executes atomically (DESIGN section 3 E1)
+            # indirect call: executes atomically (DESIGN section 3 E1); resolved by the translator to an explicit dispatch
+            # over the functions that can sit in that vtable slot (or, for plain function pointers, that have the same IR type)
             ats = ', '.join(G.ctype(t) for (t, _, _) in args)
             rt = 'void' if rvoid else G.ctype(i.ty)
             av = ', '.join(A(k) for k in range(len(args)))
             s.visible('icall', i.raw.strip()[:70])
-            s.S(f"{asg}(({rt}(*)({ats}))({env[callee[1]]}))({av});")
+            cands = s.icall_candidates(callee[1], i)
+            fp = env[callee[1]]
+            if cands is None:
+                s.S(f"{asg}(({rt}(*)({ats}))({fp}))({av});")
+            else:
+                txt = []
+                for c in cands:
+                    G.used_funcs[c] = True
+                    txt.append(f"if ({fp} == (char*)&{G.fname(c)}) {{ {asg}{G.fname(c)}({av}); }}")
+                txt.append('{ VP_CHECK(0, "indirect call: target outside the resolved candidate set"); __CPROVER_assume(0); }')
+                s.S(' else '.join(txt))
             return
         cn = callee[1]
         if cn.startswith('@llvm.'):
@@ -810,6 +825,53 @@ class FuncEmitter:
             s.S(f"{D} = {fn}({A(0)}, {n});")
         else:
             raise Unsupported("intrinsic " + cn)
+
+    def icall_candidates(s, reg, call):
+        M, G = s.M, s.G
+        defs = {}
+        for il in s.X.blocks.values():
+            for j in il:
+                if j.dst: defs.setdefault(j.dst, j)
+        d = defs.get(reg)
+        nargs = len(call.a[1])
+        def sig_ok(fn):
+            f = M.funcs.get(fn)
+            return f is not None and len(f.params) == nargs and isinstance(M.resolve(f.ret), VoidT) == isinstance(M.resolve(call.ty), VoidT)
+        if d is not None and d.op == 'load' and d.a[0][0] == 'reg':
+            pd = defs.get(d.a[0][1])
+            slot = None
+            while pd is not None and pd.op == 'cast' and pd.a[0] == 'bitcast' and pd.a[2][0] == 'reg': pd = defs.get(pd.a[2][1])
+            if pd is not None and pd.op == 'gep' and len(pd.a[2]) == 1 and pd.a[2][0][1][0] == 'int' and isinstance(M.resolve(pd.a[0]), PtrT):
+                slot = pd.a[2][0][1][1]; base = pd.a[1]
+            elif pd is not None and pd.op == 'load':
+                slot = 0
+            if slot is not None:
+                out = []
+                for g, Gl in M.globs.items():
+                    if not g.startswith('@_ZTV') or Gl.init is None or Gl.init[0] != 'agg': continue
+                    for (aty, arr) in Gl.init[2]:
+                        if arr[0] != 'agg': continue
+                        ents = arr[2]
+                        # address point: first entry after the RTTI pointer (index 2 for single inheritance)
+                        k = 2 + slot
+                        if 0 <= k < len(ents):
+                            gl = []; val_globs(ents[k][1], gl)
+                            for fn in gl:
+                                if fn in M.funcs and sig_ok(fn) and fn not in out: out.append(fn)
+                if out: return out
+        # plain function pointer (std::function invoker/manager, callbacks): same IR function type, address taken
+        fnty = None
+        rt = s.X.regty.get(reg)
+        rr = M.resolve(rt) if rt is not None else None
+        if isinstance(rr, PtrT) and isinstance(rr.to, FnT): fnty = rr.to
+        if fnty is not None:
+            out = []
+            for fn, f in M.funcs.items():
+                if not sig_ok(fn): continue
+                if repr(f.ret) == repr(fnty.ret) and [repr(t) for (t, _, _) in f.params] == [repr(t) for t in fnty.params]:
+                    out.append(fn)
+            if out: return out
+        return None
 
     def elem_kind(s, *vals):
         """element kind for a symbolic-length copy: 'p' pointers, 'w' 32-bit, 'q' 64-bit, 'b' bytes"""
